@@ -298,21 +298,27 @@ def run_trial(ctx, case):
         ctx.count("draws-answered", len(handler.draws))
     if var[2] is not None and any(all(v[j] > 0 for v in var) for j in range(t)):
         ctx.flag("record-with-env+rep+err-parts")
-    if "df" in box and _sample_trial(case):
+    if "df" in box and _sample_trial(ctx, case):
         ctx.sample(dict(case=case, true_values=G, table=box["df"].to_dict(orient="list")))
 
 
-def _sample_trial(case):
-    """A handful of informative executions for the evidence file (which ones depends on the seed only)."""
-    k = case["seed"] % 3
+def _sample_trial(ctx, case):
+    """A handful of informative executions for the evidence file: the first fully noisy trial of two fixed
+    configurations, one heritability case."""
     if case["layer"] == "P1":
-        return ((case["n"], case["labvar"], case["model"][0], case["nenv"]) in ((3, "uns-grpdup", "AL", 2), (4, "uns-nogrp", "ADL", 3))
-                and case["nrep"] == [[1, 2], [2, 1, 1]][case["nenv"] - 2] and case["tag"] == k
-                and all(v == [1.0, 4.0][: len(v)] for v in case["var"]))
-    if case["layer"] == "P3":
-        return (case["n"], case["labvar"], case["model"], case["method"], case["target"], case["nenv"]) == \
-            (3, "uns-grpuniq", ["ADL", 1, True], "h2", 0.5, 2) and case["prior"] is None
-    return False
+        key = (case["n"], case["labvar"], case["model"][0], case["model"][1], case["nenv"])
+        hit = key in ((3, "uns-grpdup", "AL", 2, 2), (4, "uns-nogrp", "ADL", 1, 3)) and not isinstance(case["nrep"], int) \
+            and len(set(case["nrep"])) > 1 and all(x > 0 for v in case["var"] for x in v)
+    elif case["layer"] == "P3":
+        key = (case["n"], case["labvar"], case["model"][0], case["model"][1], case["method"])
+        hit = key == (3, "uns-grpuniq", "ADL", 1, "h2") and case["target"] == 0.5
+    else:
+        return False
+    name = "sampled:" + repr(key)
+    if not hit or name in ctx.flags:
+        return False
+    ctx.flag(name)
+    return True
 
 
 def oracle_untouched(pg, pt, pop, nrep_list, var):
@@ -739,10 +745,13 @@ def run_estimate(ctx, case):
             ctx.flag("gt:grouped")
         ctx.flag(f"gtgrp:{case['gtgrp']}")
         ctx.flag(f"gtcls:{case['gtcls']}")
-    if "out" in box and case["counts"] == [1, 2, 2] and case["order"] == [4, 2, 0, 3, 1] and case["grpcol"] == "col" \
+    if "out" in box and case["counts"] == [1, 2, 2] and case["order"] != sorted(case["order"]) and case["grpcol"] == "col" \
             and case["traits"] == 1 and (gt is None or len(gt) == 5):
-        ctx.sample(dict(case=case, table=_table(case)[0].to_dict(orient="list"),
-                        result_taxa=box["out"].taxa.tolist(), result_values=box["out"].unscale()))
+        name = "sampled:B1:" + ("none" if gt is None else "gt")
+        if name not in ctx.flags:
+            ctx.flag(name)
+            ctx.sample(dict(case=case, table=_table(case)[0].to_dict(orient="list"),
+                            result_taxa=box["out"].taxa.tolist(), result_values=box["out"].unscale()))
 
 
 def oracle_estimate(out, gt, ggrp, tlist, means, grp_of, null, free_grp=False, P=BV):
